@@ -4,7 +4,7 @@ evidence / replay / known-findings handling."""
 import json, os, re, subprocess, sys, time, hashlib, random, shutil
 
 VERIF = os.path.dirname(os.path.dirname(os.path.abspath(__file__)))
-REPO = "/repo"
+REPO = os.environ.get("VERIF_REPO", "/repo")
 COQ = os.path.join(VERIF, "coq")
 GEN = os.path.join(COQ, "gen")
 CACHE = os.path.join(VERIF, ".cache")
@@ -281,6 +281,16 @@ def coq_eval(tag, imports, exprs, prelude="", shards=16, timeout=1200):
 
 def build_harness(timeout=3000):
     """(re)build the harness against /repo's current working tree with hooks on"""
+    tmpl = open(os.path.join(HARNESS, "Cargo.toml.in")).read().replace("@REPO@", REPO)
+    ct = os.path.join(HARNESS, "Cargo.toml")
+    if not os.path.exists(ct) or open(ct).read() != tmpl:
+        open(ct, "w").write(tmpl)
+    cfgdir = os.path.join(HARNESS, ".cargo")
+    os.makedirs(cfgdir, exist_ok=True)
+    cfg = f'[net]\noffline = true\n[build]\ntarget-dir = "{TARGET}"\n'
+    cp = os.path.join(cfgdir, "config.toml")
+    if not os.path.exists(cp) or open(cp).read() != cfg:
+        open(cp, "w").write(cfg)
     lock_src = os.path.join(REPO, "Cargo.lock")
     lock_dst = os.path.join(HARNESS, "Cargo.lock")
     if not os.path.exists(lock_dst) or open(lock_src).read() != open(lock_dst).read():
